@@ -1,3 +1,4 @@
+import Lm.Inst.CoreTie
 import Lm.Inv.CoreSafe
 import Lm.Inv.CoreGuards
 /-! # C13 — Priorities and batching decide when a handler runs and with which events -/
@@ -96,5 +97,11 @@ theorem C13_clearing_timeout_restores_default (md : Mod) (h : md.batchInf = true
     (if md.batchInf then { md with batchInf := false, batchLen := 0 } else md).batchInf = false ∧
     (if md.batchInf then { md with batchInf := false, batchLen := 0 } else md).batchLen = 0 := by
   simp [h]
+
+
+/-- tie A: the guard prefixes of the entry points this property is about, re-extracted from the source on every run,
+are the ones the model transcribes (`Lm.Inst.CoreTie`) -/
+theorem C13_guards_in_source :
+    Lm.Inst.CoreTie.slice Lm.Generated.CoreGuards.guards ["m_mod_set_batch_size", "m_mod_set_batch_timeout"] = Lm.Inst.CoreTie.slice Lm.Inst.CoreTie.expected ["m_mod_set_batch_size", "m_mod_set_batch_timeout"] := by decide
 
 end Lm.Props.C13
